@@ -1,3 +1,4 @@
+import OtelVerif.Gen.C12Consts
 /-!
 # C12 model — confmap resolution: merge, expansion, escaping, termination
 
@@ -203,8 +204,8 @@ structure Env where
   schemes : List Str := []
   /-- `Provider.Retrieve(scheme:opaque)`; `none` = the provider returned an error -/
   prov : Str → Str → Option Retrieved
-  /-- number of rounds of `expandValueRecursively` (1000 in the code) -/
-  fuel : Nat := 1000
+  /-- number of rounds of `expandValueRecursively`: the loop bound regenerated from `confmap/expand.go` (1000) -/
+  fuel : Nat := OtelVerif.Gen.C12Consts.loopBound
 
 def isLetter (c : Char) : Bool := ('a' ≤ c ∧ c ≤ 'z') ∨ ('A' ≤ c ∧ c ≤ 'Z')
 def isSchemeChar (c : Char) : Bool := isLetter c ∨ ('0' ≤ c ∧ c ≤ '9') ∨ c = '+' ∨ c = '.' ∨ c = '-'
